@@ -12,6 +12,7 @@
 //	        | (typeset xN (xT …))             `type N = TypeSet[{… types => {T => …, …}}]` (odd positions aliases, even objects)
 //	        | (bare)                          `Variant[String,Integer]`   (no name in the file: takes the requested name)
 //	        | (malformed L)                   L-1 comment lines, then a syntax error on line L
+//	        | (literal L)                     L-1 comment lines, then `type Bad = 3` (not a type: PARSE_ERROR on line L)
 //	        | (empty)                         zero bytes
 //	        | (unreadable)                    a file whose read fails (chmod 000; a dangling symlink when that has no
 //	                                          effect because the process is privileged)
@@ -33,7 +34,6 @@ package c15
 import (
 	"fmt"
 	"io/ioutil"
-	"math/rand"
 	"os"
 	"path/filepath"
 	"regexp"
@@ -106,12 +106,12 @@ func bodyOf(e sx.Sexp) body {
 			panic(fmt.Errorf("bad body %s", e))
 		}
 		return body{kind: e.Tag()}
-	case "malformed":
+	case "malformed", "literal":
 		l := a[0].MustInt()
 		if l < 1 || l > 1000 {
 			panic(fmt.Errorf("bad line %s", e))
 		}
-		return body{kind: "malformed", line: int(l)}
+		return body{kind: e.Tag(), line: int(l)}
 	}
 	panic(fmt.Errorf("bad body %s", e))
 }
@@ -126,8 +126,8 @@ func (b body) sexp() sx.Sexp {
 			ts[i] = sx.Str(t)
 		}
 		return sx.T("typeset", sx.Str(b.name), sx.L(ts...))
-	case "malformed":
-		return sx.T("malformed", sx.Int(int64(b.line)))
+	case "malformed", "literal":
+		return sx.T(b.kind, sx.Int(int64(b.line)))
 	}
 	return sx.T(b.kind)
 }
@@ -209,6 +209,7 @@ func (s spec) String() string {
 
 var segRx = regexp.MustCompile(`\A[A-Za-z0-9_.]+\z`)
 var modRx = regexp.MustCompile(`\A[a-z][a-z0-9_]*\z`)
+var typeSegRx = regexp.MustCompile(`\A[A-Z][A-Za-z0-9_]*\z`)
 
 func isPrefix(a, b []string) bool {
 	if len(a) > len(b) {
@@ -222,8 +223,38 @@ func isPrefix(a, b []string) bool {
 	return true
 }
 
+// splitName: the segments of a name the way typedName sees them (one leading `::` dropped)
+func splitName(n string) []string {
+	return strings.Split(strings.TrimPrefix(n, "::"), "::")
+}
+
+// nameOK: printable ASCII and no `:` inside a segment
+func nameOK(n string) bool {
+	for i := 0; i < len(n); i++ {
+		if n[i] < 0x20 || n[i] > 0x7e {
+			return false
+		}
+	}
+	for _, seg := range splitName(n) {
+		if strings.Contains(seg, ":") {
+			return false
+		}
+	}
+	return true
+}
+
+func typeNameOK(n string) bool {
+	for _, seg := range strings.Split(n, "::") {
+		if !typeSegRx.MatchString(seg) {
+			return false
+		}
+	}
+	return true
+}
+
 // wellFormed: segments are plain file names, module names are valid and distinct, no path is a prefix of (or equal to)
-// another, no file sits where a module directory must be, the via module exists.
+// another, no file sits where a module directory must be, the via loader exists, definitions carry parseable names,
+// lookup names stay inside the alphabet on which string and segment operations coincide.
 func (s spec) wellFormed() bool {
 	seen := map[string]bool{}
 	for _, m := range s.mods {
@@ -233,6 +264,9 @@ func (s spec) wellFormed() bool {
 		seen[m] = true
 	}
 	if strings.HasPrefix(s.via, "m:") && !seen[s.via[2:]] {
+		return false
+	}
+	if s.via == "d" && len(s.mods) == 0 {
 		return false
 	}
 	for i, f := range s.files {
@@ -253,6 +287,28 @@ func (s spec) wellFormed() bool {
 			return false
 		}
 		if len(f.segs) == 2 && f.segs[0] == "modules" && seen[f.segs[1]] {
+			return false
+		}
+		switch f.body.kind {
+		case "alias", "object":
+			if !typeNameOK(f.body.name) {
+				return false
+			}
+		case "typeset":
+			if !typeNameOK(f.body.name) || len(f.body.types) == 0 {
+				return false
+			}
+			ts := map[string]bool{}
+			for _, t := range f.body.types {
+				if !typeSegRx.MatchString(t) || ts[strings.ToLower(t)] {
+					return false
+				}
+				ts[strings.ToLower(t)] = true
+			}
+		}
+	}
+	for _, l := range s.lookups {
+		if l.op != "discover" && !nameOK(l.name) {
 			return false
 		}
 	}
@@ -286,6 +342,9 @@ func (b body) text() string {
 		return "Variant[String,Integer]\n"
 	case "malformed":
 		return strings.Repeat("# filler\n", b.line-1) + "type Bad = Variant[String Integer]\n"
+	case "literal":
+		// no trailing newline: the error is raised when the parser stands at the end of the input
+		return strings.Repeat("# filler\n", b.line-1) + "type Bad = 3"
 	}
 	return ""
 }
@@ -508,7 +567,11 @@ func (w *world) run(c px.Context, l lookup) (o outcome) {
 }
 
 func exec(c px.Context, op string, args []sx.Sexp) core.Result {
-	if op != "tree" {
+	switch op {
+	case "tree":
+	case "tn", "ep":
+		return execPath(op, args)
+	default:
 		return core.Result{Out: "bad-op", Pred: "FAIL harness-bad-op " + op}
 	}
 	s, err := specOf(args)
@@ -550,8 +613,3 @@ func exec(c px.Context, op string, args []sx.Sexp) core.Result {
 	return judge(s, outs, total, out)
 }
 
-// ---- generator (first version; extended below) -----------------------------------------------------------------------
-
-func gen(g *core.G) {
-	_ = rand.Int
-}
